@@ -1,6 +1,7 @@
 package mv
 
 import (
+	"encoding/json"
 	"fmt"
 
 	"pgregory.net/rapid"
@@ -651,4 +652,101 @@ func genIterProgram(t *rapid.T, spec *GenSpec) (*Program, int) {
 		}
 	}
 	return p, g.excluded
+}
+
+// ---------------------------------------------------------------
+// C14: key sets and index option sets
+
+func genC14Key(t *rapid.T, prefix []byte) []byte {
+	switch pick(t, "kfam", 35, 25, 25, 15) {
+	case 0:
+		return rapid.SliceOfN(rapid.SampledFrom([]byte{'a', 'b', 0x00, 0xff}), 0, 4).Draw(t, "ak")
+	case 1:
+		return []byte(fmt.Sprintf("k%04d", rapid.IntRange(0, 700).Draw(t, "nk")))
+	case 2:
+		return append(append([]byte{}, prefix...), rapid.SliceOfN(rapid.ByteRange('a', 'd'), 0, 3).Draw(t, "sfx")...)
+	default:
+		return rapid.SliceOfN(rapid.Byte(), 0, 30).Draw(t, "rk")
+	}
+}
+
+func genC14(t *rapid.T) *Program {
+	c := C14Case{}
+	prefix := rapid.SliceOfN(rapid.ByteRange('p', 'r'), 8, 25).Draw(t, "prefix")
+	n := 0
+	switch pick(t, "size", 40, 35, 20, 5) {
+	case 0:
+		n = rapid.IntRange(1, 8).Draw(t, "n")
+	case 1:
+		n = rapid.IntRange(9, 40).Draw(t, "n")
+	case 2:
+		n = rapid.IntRange(41, 200).Draw(t, "n")
+	case 3:
+		n = rapid.IntRange(201, 600).Draw(t, "n")
+	}
+	seen := map[string]bool{}
+	var keys [][]byte
+	for i := 0; i < n; i++ {
+		k := genC14Key(t, prefix)
+		if !seen[string(k)] {
+			seen[string(k)] = true
+			keys = append(keys, k)
+		}
+	}
+	nseg := rapid.IntRange(1, 3).Draw(t, "nseg")
+	c.Segments = make([][]KV, nseg)
+	for _, k := range keys {
+		placed := false
+		for s := 0; s < nseg; s++ {
+			if nseg > 1 && !chance(t, "inseg", 55) {
+				continue
+			}
+			placed = true
+			if s > 0 && chance(t, "del", 25) {
+				c.Segments[s] = append(c.Segments[s], KV{Op: OpDel, K: k})
+			} else {
+				c.Segments[s] = append(c.Segments[s], KV{Op: OpSet, K: k, V: []byte(fmt.Sprintf("s%d", s))})
+			}
+		}
+		if !placed {
+			c.Segments[0] = append(c.Segments[0], KV{Op: OpSet, K: k, V: []byte("s0")})
+		}
+	}
+	c.Compact = chance(t, "compact", 30)
+	tot0 := 0
+	for _, kv := range c.Segments[0] {
+		tot0 += len(kv.K)
+	}
+	nopt := rapid.IntRange(2, 6).Draw(t, "nopt")
+	for i := 0; i < nopt; i++ {
+		q := rapid.SampledFrom([]int{8, 12, 16, 24, 32, 48, 64, 100, 200, 1000, 0, -1}).Draw(t, "quota")
+		m := 1
+		switch pick(t, "minkb", 60, 10, 10, 10, 10) {
+		case 1:
+			m = tot0 - 1
+		case 2:
+			m = tot0
+		case 3:
+			m = tot0 + 1
+		case 4:
+			m = 0
+		}
+		if m < 0 {
+			m = 1
+		}
+		c.Opts = append(c.Opts, [2]int{q, m})
+	}
+	// probes: neighbours of keys + random strings
+	np := rapid.IntRange(0, 12).Draw(t, "nprobes")
+	for i := 0; i < np; i++ {
+		c.Probes = append(c.Probes, genProbeKey(t, keys, "probe"))
+	}
+	for i, k := range keys {
+		if i < 40 || i%7 == 0 {
+			c.Probes = append(c.Probes, neighbours(k)...)
+		}
+	}
+	c.Probes = append(c.Probes, []byte{}, []byte{0xff, 0xff, 0xff, 0xff})
+	b, _ := json.Marshal(&c)
+	return &Program{Prop: "C14", Cfg: Config{Backing: "store"}, Extra: b}
 }
